@@ -90,7 +90,7 @@ PROPS = {
              "distinct Redis servers, mixed); a browser logs in at one filter and presents that session to the others under their cookie names (alone, with both cookies, mid-login at the other "
              "filter's callback), keeps a legitimate session at each, and every filter's own session is probed 2 s before and after that filter's own limits; "
              "non-trivial = a session of one filter was presented to another; distinct = canonical event trace",
-             {"runs": 4000, "budget_s": 30}, {"runs": 400000, "budget_s": 900}, must={"all": ["foreign-session-presented", "own-limits-probed", "concurrent-logins-at-different-filters"]}),
+             {"runs": 4000, "budget_s": 30}, {"runs": 400000, "budget_s": 900}, must={"all": ["foreign-session-presented", "own-limits-probed", "concurrent-logins-at-different-filters", "refresh-after-another-filters-login"]}),
     "C19": P("plans = 1-4 filters mapped to Secret names (shared, distinct, inline secret, explicit own namespace; every tenth plan a cross-namespace reference that start-up must refuse) and histories of "
              "set / delete / delete-with-finalizer / remove-key / empty events on referenced and unrelated Secrets in the own and another namespace, delivered by the simulator as reconcile requests "
              "with duplication, delay and reordering, interleaved with logins and refreshes; reference = map secret name -> last non-empty value at a completed reconcile; judged at the token endpoint "
